@@ -53,6 +53,8 @@ static void build(void) {
     add(tier, 2, "Y", "C", 0, 2, 1); P[tier][NP[tier] - 1].oddstack = 1; add(tier, 2, "P", "M", 0, 1, 1); P[tier][NP[tier] - 1].oddstack = 1;
     add(tier, 2, "B", "B", 0, 2, 1); P[tier][NP[tier] - 1].oddstack = 1;
     /* children on stacks of a size that is not a page multiple, created and joined repeatedly (the block is recycled) next to suspended probe threads */
+    /* small default stack (16 KiB) at start, children created and joined (their stacks are pooled), then the default is raised to 256 KiB */
+    add(tier, 2, "CR", "Y", 0, 1, 1); P[tier][NP[tier] - 1].oddstack = 2; add(tier, 2, "CCR", "CR", 0, 2, 1); P[tier][NP[tier] - 1].oddstack = 2;
     add(tier, 2, "H", "Y", 0, 1, 1); add(tier, 2, "Hh", "YH", 0, 2, tier ? 2 : 1); add(tier, 2, "hH", "M", 0, 2, 1);
     add(tier, 2, "OOO", "Y", 0, 1, 1); add(tier, 2, "OO", "YO", 0, 2, tier ? 2 : 1); add(tier, 3, "OO", "M", "MO", 2, 1);
     /* K: a thread ends while holding a value under a key whose destructor yields (the final switch away happens after a
@@ -66,7 +68,7 @@ static void build(void) {
 static int nprogs(int tier) { build(); return NP[tier]; }
 static void config(int tier, int prog, int * W, int * K) { build(); *W = P[tier][prog].W; *K = P[tier][prog].K; }
 static void describe(int tier, int prog, char * b, size_t n) {
-  build(); prog_t * p = &P[tier][prog]; int o = snprintf(b, n, "%sprobe threads:", p->oddstack ? "[default stack size 131080] " : "");
+  build(); prog_t * p = &P[tier][prog]; int o = snprintf(b, n, "%sprobe threads:", p->oddstack == 1 ? "[default stack size 131080] " : p->oddstack == 2 ? "[default stack size 16384, raised to 262144 by op R] " : "");
   for (int i = 0; i < p->nth; i++) o += snprintf(b + o, n - o, " t%d=%s", i, p->seq[i]);
 }
 
@@ -100,6 +102,23 @@ static void * hint_child_body(void * a) {
 }
 static void sw_create_hint_pf(void * a) { myth_thread_t t; h_spawn(V_EX_HINT_PF, &t, hint_child_body, a); void * r; myth_join(t, &r); MV_CHECK(r == a, "parent-first child with custom data: result wrong"); }
 static void sw_create_hint(void * a) { myth_thread_t t; h_spawn(V_EX_HINT, &t, hint_child_body, a); void * r; myth_join(t, &r); MV_CHECK(r == a, "child with custom data: result wrong"); }
+/* the default stack size is raised while the program runs; a thread created through a freshly initialised attribute object afterwards
+   is entitled to the new size and uses it */
+static void * deep_child_body(void * a) {
+  volatile unsigned char big[40000];
+  for (int i = 0; i < 40000; i += 512) big[i] = (unsigned char)(i >> 9);
+  myth_yield();
+  for (int i = 0; i < 40000; i += 512) MV_CHECK(big[i] == (unsigned char)(i >> 9), "deep child: stack byte %d changed across a yield", i);
+  return a;
+}
+static void sw_raise_default(void * a) {
+  size_t now = 0; myth_globalattr_get_stacksize(NULL, &now);
+  if (now < 262144) myth_globalattr_set_stacksize(NULL, 262144);
+  myth_thread_attr_t at; memset(&at, 0xA5, sizeof at); myth_thread_attr_init(&at);
+  size_t rep = 0; myth_thread_attr_getstacksize(&at, &rep); MV_CHECK(rep >= 262144, "attribute object initialised after the default was raised reports %zu bytes of stack", rep);
+  myth_thread_t t; int rc = myth_create_ex(&t, &at, deep_child_body, a); MV_CHECK(rc == 0, "create_ex returned %d", rc);
+  void * r; myth_join(t, &r); MV_CHECK(r == a, "deep child result wrong");
+}
 static void sw_mutex(void * a) { (void)a; myth_mutex_lock(&mtx); myth_yield(); myth_mutex_unlock(&mtx); }
 static void sw_barrier(void * a) { (void)a; myth_barrier_wait(&bar); }
 static void sw_condwait(void * a) { (void)a; myth_mutex_lock(&cm); while (!cflag) myth_cond_wait(&cv, &cm); myth_mutex_unlock(&cm); }
@@ -131,7 +150,7 @@ static void do_op(int me, char op, int idx) {
   case 'w': fn = sw_condsig; kind = 5; break;        case 'U': fn = sw_uwait; kind = 6; break;
   case 'u': fn = sw_usig; kind = 6; break;           case 'K': fn = sw_keyed_child; kind = 1; break;
   case 'O': fn = sw_create_odd; kind = 1; break;           case 'H': fn = sw_create_hint_pf; kind = 2; break;
-  case 'h': fn = sw_create_hint; kind = 1; break;
+  case 'h': fn = sw_create_hint; kind = 1; break;              case 'R': fn = sw_raise_default; kind = 1; break;
   default: fn = sw_join_unfinished; kind = 7; break;
   }
   int w0 = mv_worker();
@@ -153,7 +172,8 @@ static void * probe_thread(void * a) {
 
 static void run(int tier, int prog) {
   build(); cur = &P[tier][prog];
-  if (cur->oddstack) mv_set_default_stacksize(131080);
+  if (cur->oddstack == 1) mv_set_default_stacksize(131080);
+  if (cur->oddstack == 2) mv_set_default_stacksize(16384);
   mv_start(cur->W);
   myth_key_create(&ykey, ydtor);
   myth_mutex_init(&mtx, 0); myth_mutex_init(&cm, 0); myth_cond_init(&cv, 0); myth_uncond_init(&unc);
